@@ -362,6 +362,13 @@ func (maps *trackedMaps) processUnfiltered(ctx context.Context, ef *Filter, filt
 	return nil
 }
 
+// pointerKey returns the map key which a segment of a pointer refers to:
+// pointerstructure unescapes the segments of a pointer (RFC 6901: ~1 is "/"
+// and ~0 is "~") before it uses them as keys, and so must the tracking.
+func pointerKey(segment string) string {
+	return strings.Replace(strings.Replace(segment, "~1", "/", -1), "~0", "~", -1)
+}
+
 func (maps *trackedMaps) trackTaggable(taggable Taggable, pointer string) error {
 	const (
 		op            = "encrypt.(trackedMaps).trackTaggable"
@@ -407,7 +414,7 @@ func (maps *trackedMaps) trackTaggable(taggable Taggable, pointer string) error 
 		if !ok {
 			return fmt.Errorf("%s: unable to get tracked map", op)
 		}
-		tm.markFieldFiltered(segs[len(segs)-1])
+		tm.markFieldFiltered(pointerKey(segs[len(segs)-1]))
 
 	default:
 		// default is a map that we need to go get via the pointer
@@ -434,7 +441,7 @@ func (maps *trackedMaps) trackTaggable(taggable Taggable, pointer string) error 
 		if !ok {
 			return fmt.Errorf("%s: unable to get tracked map", op)
 		}
-		tm.markFieldFiltered(segs[len(segs)-1])
+		tm.markFieldFiltered(pointerKey(segs[len(segs)-1]))
 	}
 	return nil
 }
